@@ -439,6 +439,19 @@ func (cs *clientStream) doHttpCall(transport http.RoundTripper, req *http.Reques
 		cs.ready.Done()
 	}
 
+	// The transport reads the request body from the pipe. If the context ends
+	// while that read is blocked (the caller is neither sending nor closing),
+	// RoundTrip does not return until the read does, so end the body then.
+	stop := make(chan struct{})
+	defer close(stop)
+	go func() {
+		select {
+		case <-cs.ctx.Done():
+			readPipe.CloseWithError(statusFromContextError(cs.ctx.Err()))
+		case <-stop:
+		}
+	}()
+
 	reply, err := transport.RoundTrip(req.WithContext(cs.ctx))
 	verifAt("http.stream.after-roundtrip", cs.ctx)
 	if err != nil {
